@@ -195,6 +195,27 @@ fn extras(data: &[i64], out: &mut Vec<String>) -> usize {
             }
         }
     }
+    // inner iterators of more than a million items (once per run of the binary: it is the same for every seed)
+    static LONG_DONE: std::sync::atomic::AtomicBool = std::sync::atomic::AtomicBool::new(false);
+    if !LONG_DONE.swap(true, std::sync::atomic::Ordering::SeqCst) {
+        let inner = (1usize << 20) + 5;
+        let inputs: Vec<usize> = (0..4).collect();
+        let want: Vec<usize> = inputs.iter().flat_map(|x| (0..inner).map(move |j| (x << 22) | j)).collect();
+        for (nt, cs) in [(4usize, 1usize), (2, 1), (3, 2)] {
+            let got = inputs.par().num_threads(nt).chunk_size(cs).flat_map(|x| (0..inner).map(move |j| (*x << 22) | j)).collect_vec();
+            n += 1;
+            if got != want {
+                let pos = got.iter().zip(want.iter()).position(|(a, b)| a != b);
+                out.push(format!("MISMATCH long-inner nt={} cs={} term=flat_map.long got=len:{}/first-difference-at:{:?} want=len:{}", nt, cs, got.len(), pos, want.len()));
+            }
+            let got = inputs.par().num_threads(nt).chunk_size(cs).flat_map(|x| (0..inner).map(move |j| (*x << 22) | j)).filter(|v| v % 3 != 0).collect_vec();
+            let want_f: Vec<usize> = want.iter().cloned().filter(|v| v % 3 != 0).collect();
+            n += 1;
+            if got != want_f {
+                out.push(format!("MISMATCH long-inner nt={} cs={} term=flat_map.long got=len:{} want=len:{}", nt, cs, got.len(), want_f.len()));
+            }
+        }
+    }
     // defaults are Auto/Auto wherever the computation is built: here inside a closure that runs on the
     // worker threads of another computation
     let outer: Vec<usize> = (0..64).collect();
